@@ -89,9 +89,10 @@ class _Normalizer:
                     aug.add(st.target.id)
             self.globals_rebound |= aug
             for rnd in range(5):
-                before = self.stats['inlined_calls']
+                before = self.stats['inlined_calls'] + self.stats.get('fused_generators', 0)
                 self._each_function(m, self._inline_in_function)
-                if self.stats['inlined_calls'] == before:
+                self._each_function(m, self._fuse_in_function)
+                if self.stats['inlined_calls'] + self.stats.get('fused_generators', 0) == before:
                     break
             self._each_function(m, self._augment_function)
             self._each_function(m, self._desugar_function)
@@ -294,7 +295,7 @@ class _Normalizer:
             return False
         return True
 
-    def _expand(self, fi, recv, call: ast.Call):
+    def _expand(self, fi, recv, call: ast.Call, allow_yield: bool = False):
         """-> (prefix statements, replacement expression) for one call of an inlinable helper, or None."""
         self.counter += 1
         tag = '__h%d_' % self.counter
@@ -373,6 +374,118 @@ class _Normalizer:
         ast.copy_location(ret, call)
         return prefix + body, ret
 
+    # ------------------------------------------------------------------ 1c. generator fusion
+    def _fuse_in_function(self, fnode, cls, local):
+        """``for T in helper_generator(args): BODY`` becomes the generator's body with every ``yield E`` replaced by
+        ``T = E; BODY`` (the consumer runs where the producer yields).  Only when this is exact: the generator yields at
+        statement level outside try blocks and has no return, the consumer body has no ``continue`` of its own loop, and a
+        ``break`` is allowed only when all yields sit in the generator's final loop."""
+        me = self
+        caller_key = '%s:%s' % (self.m.name, fnode.name)
+
+        def gen_helper(call):
+            if not isinstance(call, ast.Call):
+                return None
+            h = me._helper_of(call, cls)
+            if h is None or h[0].node is fnode:
+                return None
+            fi = h[0]
+            a = fi.node.args
+            if a.vararg or a.kwarg or a.kwonlyargs or a.posonlyargs:
+                return None
+            body = _body(fi.node)
+            if not any(isinstance(n, ast.Yield) for st in body for n in ast.walk(st)):
+                return None
+            if any(isinstance(n, (ast.Return, ast.YieldFrom, ast.Global, ast.Nonlocal, ast.Lambda, ast.FunctionDef, ast.ClassDef))
+                   for st in body for n in ast.walk(st)):
+                return None
+            if any(isinstance(n, ast.Call) and ((isinstance(n.func, ast.Name) and n.func.id == fi.name) or
+                                                (isinstance(n.func, ast.Attribute) and n.func.attr == fi.name))
+                   for st in body for n in ast.walk(st)):
+                return None
+            yd = _yield_depths(body)
+            if not yd or any(in_try for _st, _d, in_try, _l in yd) or any(d > 1 for _st, d, _t, _l in yd):
+                return None
+            return fi, h[1], yd
+
+        def fuse(st: ast.For, call, assigned_stmt=None):
+            g = gen_helper(call)
+            if g is None or st.orelse:
+                return None
+            fi, recv, yd = g
+            if _loop_level(st.body, (ast.Continue,)):
+                return None
+            if _loop_level(st.body, (ast.Break,)) and not all(d == 1 and last for _s, d, _t, last in yd):
+                return None
+            # bind parameters / rename locals exactly as for ordinary helpers: build a fake helper whose body ends
+            # without return, expand it, then splice the consumer in at the yields
+            exp = me._expand(fi, recv, call, allow_yield=True)
+            if exp is None:
+                return None
+            gbody, _ret = exp
+
+            class Y(ast.NodeTransformer):
+                def visit_FunctionDef(self, n):
+                    return n
+
+                def visit_Expr(self, n):
+                    if isinstance(n.value, ast.Yield):
+                        val = n.value.value if n.value.value is not None else ast.Constant(value=None)
+                        asg = ast.Assign(targets=[copy.deepcopy(st.target)], value=val)
+                        ast.copy_location(asg, n)
+                        out = [asg] + [copy.deepcopy(x) for x in st.body]
+                        for x in out:
+                            ast.fix_missing_locations(x)
+                        return out
+                    return n
+            new_body = []
+            for x in gbody:
+                r = Y().visit(x)
+                new_body.extend(r if isinstance(r, list) else [r])
+            me.stats['fused_generators'] = me.stats.get('fused_generators', 0) + 1
+            me.inlined.append((caller_key, fi.key))
+            return new_body
+
+        def single_use_local_call(name: str):
+            """the one statement ``name = helper_generator(...)`` of this function if ``name`` is bound once and read once"""
+            stores = [n for n in ast.walk(fnode) if isinstance(n, ast.Name) and n.id == name and isinstance(n.ctx, ast.Store)]
+            loads = [n for n in ast.walk(fnode) if isinstance(n, ast.Name) and n.id == name and isinstance(n.ctx, ast.Load)]
+            if len(stores) != 1 or len(loads) != 1:
+                return None
+            for n in ast.walk(fnode):
+                if isinstance(n, ast.Assign) and len(n.targets) == 1 and n.targets[0] is stores[0] and isinstance(n.value, ast.Call):
+                    return n
+            return None
+
+        def walk_body(body: List[ast.stmt]) -> List[ast.stmt]:
+            out: List[ast.stmt] = []
+            for st in body:
+                if isinstance(st, (ast.FunctionDef, ast.AsyncFunctionDef, ast.ClassDef)):
+                    out.append(st)
+                    continue
+                for fld in ('body', 'orelse', 'finalbody'):
+                    v = getattr(st, fld, None)
+                    if isinstance(v, list) and v and isinstance(v[0], ast.stmt):
+                        setattr(st, fld, walk_body(v))
+                if isinstance(st, ast.Try):
+                    for h in st.handlers:
+                        h.body = walk_body(h.body)
+                if isinstance(st, ast.For):
+                    call, asg = st.iter, None
+                    if isinstance(call, ast.Name):
+                        asg = single_use_local_call(call.id)
+                        # only when the binding is an earlier statement of the same block (nothing in between can rebind)
+                        call = asg.value if asg is not None and asg in out else None
+                    fused = fuse(st, call) if call is not None else None
+                    if fused is not None:
+                        if asg is not None:
+                            out.remove(asg)
+                        out.extend(walk_body(fused))
+                        continue
+                out.append(st)
+            return out
+        fnode.body = walk_body(fnode.body)
+
     def _inline_in_function(self, fnode, cls, local):
         me = self
         caller_key = '%s:%s' % (self.m.name, fnode.name)
@@ -449,6 +562,60 @@ class _Normalizer:
                 out.extend(do_stmt(st))
             return out
         fnode.body = walk_body(fnode.body)
+
+
+def _yield_depths(body: List[ast.stmt]):
+    """[(yield statement, loop depth, inside try)] for the statement-level yields of a generator body; None if a yield occurs
+    anywhere else (as a sub-expression, ``yield from``)."""
+    out = []
+    bad = [False]
+
+    def walk(stmts, depth, in_try, top_last_loop):
+        for i, st in enumerate(stmts):
+            if isinstance(st, ast.Expr) and isinstance(st.value, ast.Yield):
+                out.append((st, depth, in_try, top_last_loop))
+                if st.value.value is not None and any(isinstance(n, (ast.Yield, ast.YieldFrom)) for n in ast.walk(st.value.value)):
+                    bad[0] = True
+                continue
+            own = [n for n in ast.iter_child_nodes(st) if not isinstance(n, ast.stmt) and not isinstance(n, ast.ExceptHandler)]
+            for n in own:
+                for x in ast.walk(n):
+                    if isinstance(x, (ast.Yield, ast.YieldFrom)):
+                        bad[0] = True
+            if isinstance(st, (ast.FunctionDef, ast.AsyncFunctionDef, ast.ClassDef)):
+                bad[0] = bad[0] or any(isinstance(x, (ast.Yield, ast.YieldFrom)) for x in ast.walk(st)) and False
+                continue
+            is_loop = isinstance(st, (ast.For, ast.While))
+            last_top = top_last_loop if depth > 0 else (is_loop and i == len(stmts) - 1)
+            for fld in ('body', 'orelse', 'finalbody'):
+                sub = getattr(st, fld, None)
+                if isinstance(sub, list) and sub and isinstance(sub[0], ast.stmt):
+                    walk(sub, depth + (1 if is_loop and fld == 'body' else 0), in_try or isinstance(st, ast.Try), last_top)
+            if isinstance(st, ast.Try):
+                for h in st.handlers:
+                    walk(h.body, depth, True, last_top)
+    walk(body, 0, False, False)
+    return None if bad[0] else out
+
+
+def _loop_level(body: List[ast.stmt], kinds) -> bool:
+    """does a statement of one of ``kinds`` (Break / Continue) occur at the level of this loop body (not inside a nested loop)?"""
+    for st in body:
+        if isinstance(st, kinds):
+            return True
+        if isinstance(st, (ast.For, ast.While, ast.FunctionDef, ast.AsyncFunctionDef, ast.ClassDef)):
+            if isinstance(st, (ast.For, ast.While)) and _loop_level(st.orelse, kinds):
+                return True
+            continue
+        for fld in ('body', 'orelse', 'finalbody'):
+            sub = getattr(st, fld, None)
+            if isinstance(sub, list) and sub and isinstance(sub[0], ast.stmt) and _loop_level(sub, kinds):
+                return True
+        if isinstance(st, ast.Try):
+            for h in st.handlers:
+                if _loop_level(h.body, kinds):
+                    return True
+    return False
 
 
 def _body(node) -> List[ast.stmt]:
